@@ -180,6 +180,8 @@ def run(ctx):
         # one random tampering described in the spec's vocabulary
         row = {"ptLen": n, "ctFlips": [], "sigFlips": [], "sigLen": 16, "ctCut": 0, "hk": "right", "ak": "right", "verify": rng.random() < 0.7}
         kind = rng.choice(["none", "ct", "sig", "siglen", "cut", "hk", "nohk", "ak"])
+        if not ct and kind in ("ct", "cut"):
+            kind = "sig"  # (an implementation under test may hand out an empty ciphertext; the encrypt event above already says so)
         ct2, sg2 = ct, sg
         if kind == "ct":
             idx, bit = rng.randrange(len(ct)), rng.randrange(8)
